@@ -33,7 +33,7 @@ def run(ctx):
     )
     fns = functions_of(repo, ["xgi.algorithms", "xgi.linalg", "xgi.stats", "xgi.communities"], exact=("xgi.convert.graph", "xgi.convert.line_graph", "xgi.convert.encapsulation_dag", "xgi.utils.trie"))
     fns = [f for f in fns if not (f.cls is not None and f.cls.name in ("IDStat", "MultiIDStat"))]
-    eng = run_kinds(ctx, res, PROP, fns, 180, 30)
+    eng = run_kinds(ctx, res, PROP, fns, 120, 30, floor_functions=40)
     if not ctx.only:
         check_trie(repo, res)
         # row/column order convention of the matrix builders: callers that use a matrix without its index maps
